@@ -1,1 +1,107 @@
-From LV Require Import Route.Model.
+(* C19 — non-vacuity: the hypotheses of the property theorems are satisfiable
+   by concrete, non-trivial inputs (3 hops, a negative inbound fee that floors
+   a node's fee at zero, a parallel channel, tight limits). *)
+From Coq Require Import ZArith List Bool Lia.
+From LV Require Import Route.Model Route.Proofs Route.LinkC09 Route.Search Route.Props.
+Import ListNotations.
+Local Open Scope Z_scope.
+
+(* nodes 0 (source = self) -> 1 -> 2 -> 3 (target); channels 10, 20/21, 30 *)
+Definition e01 := mkEdge 10 0 1 false 1000 2000000 true 1000 100 40 (-5000) (-2000) 5000.
+Definition e12 := mkEdge 20 1 2 false 1 1500000 true 1000 1000 80 100 500 3000.
+Definition e12' := mkEdge 21 1 2 false 1 1500000 true 0 0 144 100 500 3000.
+Definition e23 := mkEdge 30 2 3 false 1000 1000000 true 2000 5000 18 0 0 1000.
+Definition g0 : graph := [e01; e12; e12'; e23].
+Definition en0 := mkEnv 0 700000 40 [(10, 1007603)].
+Definition rs0 := mkRestr 7603 162 [10] (Some 2) [5] [(3, 0)].
+
+Definition path0 := [e01; set_delta_cap e12 144 3000; zero_inbound e23].
+Definition r0 := new_route en0 0 1000000 path0.
+
+Example r0_value :
+  r0 = mkRoute 0 1007603 700202
+         [mkHop 10 1 1007603 700058; mkHop 20 2 1000000 700040; mkHop 30 3 1000000 700040].
+Proof. vm_compute. reflexivity. Qed.
+
+(* node 1's fee is floored at zero by its inbound discount; node 2 keeps 7603 *)
+Example r0_hop_fees : hop_fees r0 = [0; 7603; 0].
+Proof. vm_compute. reflexivity. Qed.
+
+(* the checker accepts it with every limit exactly tight: bandwidth hint,
+   fee limit, cltv limit, max_htlc of the last channel *)
+Example r0_valid : route_valid g0 en0 rs0 1000000 0 3 r0 [60; 60; 50] = true.
+Proof. vm_compute. reflexivity. Qed.
+
+(* ... and rejects it as soon as one limit is one tighter *)
+Example r0_fee_limit_tight :
+  route_valid g0 en0 (mkRestr 7602 162 [10] (Some 2) [] []) 1000000 0 3 r0 [60; 60; 50] = false.
+Proof. vm_compute. reflexivity. Qed.
+Example r0_bandwidth_tight :
+  route_valid g0 (mkEnv 0 700000 40 [(10, 1007602)]) rs0 1000000 0 3 r0 [60; 60; 50] = false.
+Proof. vm_compute. reflexivity. Qed.
+Example r0_underpaid_rejected :
+  route_valid g0 en0 rs0 1000000 0 3
+    (mkRoute 0 1007602 700202
+       [mkHop 10 1 1007602 700058; mkHop 20 2 1000000 700040; mkHop 30 3 1000000 700040])
+    [60; 60; 50] = false.
+Proof. vm_compute. reflexivity. Qed.
+
+Example r0_carried_ok : carried_ok en0 rs0 1000000 700040 [e01; e12; e23] = true.
+Proof. vm_compute. reflexivity. Qed.
+
+(* C19_hop_passes_C09: its hypotheses hold for node 2 of r0 *)
+Example r0_forwards :
+  forwards (r_amt r0) (r_tl r0) [e01; e12; e23] (r_hops r0)
+           e12 e23 (mkHop 20 2 1000000 700040) 1007603 700058.
+Proof. rewrite r0_value. cbn [r_amt r_tl r_hops]. apply fw_later. apply fw_here. Qed.
+
+Example r0_node2_passes_C09 :
+  P.check_forward_m (link_env e23 10 2016 5000000) (htlc_of e12 1007603 700058
+                     (mkHop 20 2 1000000 700040) 700000) = P.ok_result /\
+  P.D (link_env e23 10 2016 5000000)
+      (htlc_of e12 1007603 700058 (mkHop 20 2 1000000 700040) 700000).
+Proof.
+  split; [vm_compute; reflexivity|].
+  constructor; vm_compute; split; congruence.
+Qed.
+
+(* C19_get_edge_sound: highest fee policy, maximum delta of the parallel channels *)
+Example get_edge_parallel :
+  get_edge en0 false [e12; e12'] 1007000 7000 = Some (set_delta_cap e12 144 3000).
+Proof. vm_compute. reflexivity. Qed.
+
+(* C19_search_invariant / C19_search_sound: the relaxations along path0 are
+   accepted and lead to the source entry with the totals of r0 *)
+Example replay_path0 :
+  replay en0 rs0 1000000 0 3 50 path0 [0; 60; 60]
+  = Some (mkEntry 0 1007603 0 700202 170).
+Proof. vm_compute. reflexivity. Qed.
+
+Example search_chain_valid :
+  exists n szs, inv en0 rs0 1000000 0 3 n path0 [e01; e12; e23] szs /\ n_node n = 0.
+Proof.
+  assert (Hfl : 0 <= fee_limit rs0) by (vm_compute; congruence).
+  destruct (relax en0 rs0 1000000 0 (zero_inbound e23) (target_entry en0 3 1000000 50) 60)
+    as [n1|] eqn:E1; [|vm_compute in E1; discriminate].
+  pose proof (C19_search_invariant_init en0 rs0 1000000 0 3 50 Hfl e23 e23 60 n1
+                (syn_refl _) eq_refl ltac:(vm_compute; reflexivity)
+                ltac:(intros n Hn; vm_compute in Hn; inversion Hn; reflexivity) E1) as I1.
+  assert (N1 : n1 = mkEntry 2 1007000 7000 700058 110) by (vm_compute in E1; congruence).
+  destruct (relax en0 rs0 1000000 0 (set_delta_cap e12 144 3000) n1 60) as [n2|] eqn:E2;
+    [|subst n1; vm_compute in E2; discriminate].
+  destruct (C19_search_invariant en0 rs0 1000000 0 3 Hfl n1 _ _ _ e12 (set_delta_cap e12 144 3000) 60 n2
+              I1 ltac:(subst n1; vm_compute; congruence)
+              (syn_set_delta_cap e12 144 3000 ltac:(vm_compute; congruence))
+              ltac:(split; reflexivity) ltac:(subst n1; reflexivity)
+              ltac:(subst n1; vm_compute; reflexivity) E2) as [own2 I2].
+  assert (N2 : n2 = mkEntry 1 1009610 2007 700202 170)
+    by (subst n1; vm_compute in E2; congruence).
+  destruct (relax en0 rs0 1000000 0 e01 n2 0) as [n3|] eqn:E3;
+    [|subst n2; vm_compute in E3; discriminate].
+  destruct (C19_search_invariant en0 rs0 1000000 0 3 Hfl n2 _ _ _ e01 e01 0 n3
+              I2 ltac:(subst n2; vm_compute; congruence) (syn_refl _)
+              ltac:(split; reflexivity) ltac:(subst n2; reflexivity)
+              ltac:(subst n2; vm_compute; reflexivity) E3) as [own3 I3].
+  exists n3, (own3 :: own2 :: [50]). split; [exact I3|].
+  subst n2. vm_compute in E3. inversion E3. reflexivity.
+Qed.
